@@ -30,12 +30,12 @@ Proof. destruct k; constructor; cbn; constructor. Qed.
 Lemma Forall_lt_mono {A} (f : A -> nat) a b l : (a <= b)%nat -> Forall (fun x => (f x < a)%nat) l -> Forall (fun x => (f x < b)%nat) l.
 Proof. intros Hab H. eapply Forall_impl; [|exact H]. cbn. intros. lia. Qed.
 
-Lemma PInv_insert k pos key val c o ser nid c' ser' nid' ev :
-  shape k c -> PInv c o ser nid -> c_insert k pos key val c ser nid = (c', ser', nid', ev) ->
+Lemma PInv_ins_eff k key val c o ser nid c' ser' nid' ev :
+  PInv c o ser nid -> InsEff k key val c ser nid c' ser' nid' ev ->
   PInv c' o ser' nid' /\ (ser <= ser')%nat /\ (nid <= nid')%nat.
 Proof.
-  intros Hs [H1 H2 H3 H4] E.
-  destruct (c_insert_effect _ _ _ _ _ _ _ _ _ _ _ Hs E)
+  intros [H1 H2 H3 H4] E.
+  destruct E
     as (_ & _ & [(-> & -> & Ep & Hel)|(-> & nd & l1 & l2 & ser1 & ev1 & ev2 & E1 & E2 & E3 & Hle & Ea & _)]).
   - split; [|lia].
     assert (H : ids (elems c') = ids (elems c) /\ slots (elems c') = slots (elems c)).
@@ -81,6 +81,11 @@ Proof.
                      In x ((map n_slot l1 ++ map n_slot l2) ++ p_free (c_pool o) ++ map n_slot (elems o))) by in_solve.
         destruct Hc as [Hc|Hc]; [rewrite (Hfst x Hc); lia|apply H4; exact Hc].
 Qed.
+
+Lemma PInv_insert k pos key val c o ser nid c' ser' nid' ev :
+  shape k c -> PInv c o ser nid -> c_insert k pos key val c ser nid = (c', ser', nid', ev) ->
+  PInv c' o ser' nid' /\ (ser <= ser')%nat /\ (nid <= nid')%nat.
+Proof. intros Hs Hp E. eapply PInv_ins_eff; eauto. eapply c_insert_eff; eauto. Qed.
 
 Lemma PInv_remove k pos c o ser nid c' ev :
   shape k c -> PInv c o ser nid -> c_remove_at pos c = (c', ev) -> PInv c' o ser nid.
@@ -151,12 +156,12 @@ Proof. intros n' []. Qed.
 
 Definition key_assign (k : kind) (key : Z) : Z -> bool := fun x => assigns k && (x =? key)%Z.
 
-Lemma node_step_insert k pos key val c ser nid c' ser' nid' ev :
-  shape k c -> c_insert k pos key val c ser nid = (c', ser', nid', ev) ->
+Lemma node_step_ins_eff k key val c ser nid c' ser' nid' ev :
+  InsEff k key val c ser nid c' ser' nid' ev ->
   node_step k (key_assign k key) nid ev (elems c) (elems c').
 Proof.
-  intros Hs E.
-  destruct (c_insert_effect _ _ _ _ _ _ _ _ _ _ _ Hs E)
+  intros E.
+  destruct E
     as (_ & _ & [(-> & -> & Ep & Hel)|(-> & nd & l1 & l2 & ser1 & ev1 & ev2 & E1 & E2 & E3 & Hle & Ea & Eev)]).
   - destruct Hel as [->|(Has & l1 & x & l2 & F1 & F2 & F3)]; [apply node_step_same|].
     rewrite F1, F2. intros n' Hn. right. apply in_app_or in Hn. destruct Hn as [Hn|[<-|Hn]].
@@ -169,6 +174,11 @@ Proof.
     + left. rewrite E3. split; [lia|]. rewrite Eev. apply in_or_app. right. apply in_or_app. right. cbn. auto.
     + right. exists n'. split; [apply in_or_app; auto|apply survives_refl].
 Qed.
+
+Lemma node_step_insert k pos key val c ser nid c' ser' nid' ev :
+  shape k c -> c_insert k pos key val c ser nid = (c', ser', nid', ev) ->
+  node_step k (key_assign k key) nid ev (elems c) (elems c').
+Proof. intros Hs E. eapply node_step_ins_eff. eapply c_insert_eff; eauto. Qed.
 
 Lemma node_step_remove k A pos c c' ev nid :
   shape k c -> c_remove_at pos c = (c', ev) -> node_step k A nid ev (elems c) (elems c').
@@ -207,36 +217,122 @@ Proof. unfold destroy_events. apply Forall_forall. intros e He. apply in_map_iff
 Lemma destroy_events_not_free l : Forall not_free (destroy_events l).
 Proof. unfold destroy_events. apply Forall_forall. intros e He. apply in_map_iff in He. destruct He as (n & <- & _). exact I. Qed.
 
-(* ---- operator= : clear, then a fold of inserts ---------------------------------------------------- *)
-Definition assign_fold (k : kind) :=
-  fun (acc : cont * nat * nat * list event) (e : node) =>
-    let '(c1, ser1, nid1, ev1) := acc in
-    let '(c2, ser2, nid2, ev2) := c_insert k (length (elems c1)) (n_key e) (n_val e) c1 ser1 nid1 in
-    (c2, ser2, nid2, ev1 ++ ev2).
+Lemma node_step_ext k A B nid ev l l' :
+  (forall x, A x = true -> B x = true) -> node_step k A nid ev l l' -> node_step k B nid ev l l'.
+Proof.
+  intros HAB H n' Hn. destruct (H n' Hn) as [Hl|(n & Hin & (F1 & F2 & F3 & F4))]; [left; exact Hl|].
+  right. exists n. split; auto. unfold survives. repeat split; auto. destruct F4; auto.
+Qed.
 
-Lemma assign_fold_facts k o src : forall c ser nid ev c' ser' nid' ev' nid0,
+(* ---- runs of insertions (operator= after its clear, the whole-container insertions) -------------------- *)
+Definition any_assign (k : kind) : Z -> bool := fun _ => assigns k.
+
+Lemma survives_trans A n0 n n' : survives A n0 n -> survives A n n' -> survives A n0 n'.
+Proof.
+  intros (F1 & F2 & F3 & F4) (G1 & G2 & G3 & G4). unfold survives. repeat split; try congruence.
+  destruct F4 as [F4|F4]; [|right; exact F4]. destruct G4 as [G4|G4]; [left; congruence|right; rewrite F3; exact G4].
+Qed.
+
+Lemma node_step_trans k A nid0 nid ev ev2 l0 l l' :
+  (nid0 <= nid)%nat -> node_step k A nid0 ev l0 l -> node_step k A nid ev2 l l' -> node_step k A nid0 (ev ++ ev2) l0 l'.
+Proof.
+  intros Hle H1 H2 n' Hn'. destruct (H2 n' Hn') as [(G1 & G2)|(n & Hn & Hs)].
+  - left. split; [lia|]. apply in_or_app. auto.
+  - destruct (H1 n Hn) as [(G1 & G2)|(n0 & Hn0 & Hs0)].
+    + left. destruct Hs as (F1 & F2 & _). rewrite <- F1, <- F2. split; auto. apply in_or_app. auto.
+    + right. exists n0. split; auto. eapply survives_trans; eauto.
+Qed.
+
+Lemma node_step_from_nil k A nid ev l l' : node_step k A nid ev [] l' -> node_step k A nid ev l l'.
+Proof. intros H n' Hn'. destruct (H n' Hn') as [G|(n & [] & _)]. left. exact G. Qed.
+
+Lemma kept_ins_eff k key val c ser nid c' ser' nid' ev :
+  InsEff k key val c ser nid c' ser' nid' ev ->
+  forall p, In p (elems c) -> exists n, In n (elems c') /\ n_id n = n_id p.
+Proof.
+  intros E.
+  destruct E
+    as (_ & _ & [(_ & _ & _ & Hel)|(_ & nd & l1 & l2 & ser1 & ev1 & ev2 & E1 & E2 & _)]).
+  - destruct Hel as [->|(_ & l1 & x & l2 & F1 & F2 & _)]; [intros p Hp; exists p; auto|].
+    rewrite F1, F2. intros p Hp. apply in_app_or in Hp. destruct Hp as [Hp|[<-|Hp]].
+    + exists p. split; auto. apply in_or_app. auto.
+    + exists (set_val x val). split; [apply in_or_app; cbn; auto|reflexivity].
+    + exists p. split; auto. apply in_or_app. cbn. auto.
+  - rewrite E1, E2. intros p Hp. exists p. split; auto.
+    apply in_app_or in Hp. apply in_or_app. cbn. tauto.
+Qed.
+
+Lemma kept_insert k pos key val c ser nid c' ser' nid' ev :
+  shape k c -> c_insert k pos key val c ser nid = (c', ser', nid', ev) ->
+  forall p, In p (elems c) -> exists n, In n (elems c') /\ n_id n = n_id p.
+Proof. intros Hs E. eapply kept_ins_eff. eapply c_insert_eff; eauto. Qed.
+
+Lemma ins_fold_facts k o off src : forall c ser nid ev c' ser' nid' ev' l0 nid0,
   shape k c -> PInv c o ser nid -> (nid0 <= nid)%nat ->
-  (forall n, In n (elems c) -> (nid0 <= n_id n)%nat /\ In (birth k (n_id n) (n_slot n)) ev) ->
-  fold_left (assign_fold k) src (c, ser, nid, ev) = (c', ser', nid', ev') ->
+  node_step k (any_assign k) nid0 ev l0 (elems c) ->
+  (forall p, In p l0 -> exists n, In n (elems c) /\ n_id n = n_id p) ->
+  fold_left (ins_fold k off) src (c, ser, nid, ev) = (c', ser', nid', ev') ->
   shape k c' /\ PInv c' o ser' nid' /\ (ser <= ser')%nat /\ (nid <= nid')%nat /\
-  (forall n, In n (elems c') -> (nid0 <= n_id n)%nat /\ In (birth k (n_id n) (n_slot n)) ev') /\
+  node_step k (any_assign k) nid0 ev' l0 (elems c') /\
+  (forall p, In p l0 -> exists n, In n (elems c') /\ n_id n = n_id p) /\
   exists ev2, ev' = ev ++ ev2 /\ Forall (ins_ev_ok k) ev2.
 Proof.
-  induction src as [|e src IH]; intros c ser nid ev c' ser' nid' ev' nid0 Hs Hp Hn0 Hb E; cbn [fold_left] in E.
-  - injection E as <- <- <- <-. split; [auto|]. split; [auto|]. split; [lia|]. split; [lia|]. split; [exact Hb|].
+  induction src as [|e src IH]; intros c ser nid ev c' ser' nid' ev' l0 nid0 Hs Hp Hn0 Hb Hk E; cbn [fold_left] in E.
+  - injection E as <- <- <- <-. split; [auto|]. split; [auto|]. split; [lia|]. split; [lia|]. split; [exact Hb|]. split; [exact Hk|].
     exists []. rewrite app_nil_r. auto.
-  - unfold assign_fold at 2 in E.
-    destruct (c_insert k (length (elems c)) (n_key e) (n_val e) c ser nid) as [[[c2 ser2] nid2] ev2] eqn:Ei.
+  - unfold ins_fold at 2 in E.
+    destruct (c_insert k (ins_pos off c) (n_key e) (n_val e) c ser nid) as [[[c2 ser2] nid2] ev2] eqn:Ei.
     destruct (PInv_insert _ _ _ _ _ _ _ _ _ _ _ _ Hs Hp Ei) as (Hp2 & Hser & Hnid).
     destruct (c_insert_effect _ _ _ _ _ _ _ _ _ _ _ Hs Ei) as (Hs2 & Hev2 & _).
     pose proof (node_step_insert _ _ _ _ _ _ _ _ _ _ _ Hs Ei) as Hns.
-    assert (Hb2 : forall n, In n (elems c2) -> (nid0 <= n_id n)%nat /\ In (birth k (n_id n) (n_slot n)) (ev ++ ev2)).
-    { intros n Hn. destruct (Hns n Hn) as [(H1 & H2)|(n0 & Hn0' & (F1 & F2 & _))].
-      - split; [lia|]. apply in_or_app. auto.
-      - destruct (Hb n0 Hn0') as (G1 & G2). rewrite <- F1, <- F2. split; auto. apply in_or_app. auto. }
-    destruct (IH _ _ _ _ _ _ _ _ nid0 Hs2 Hp2 ltac:(lia) Hb2 E) as (K1 & K2 & K3 & K4 & K5 & (ev3 & K6 & K7)).
-    split; [auto|]. split; [auto|]. split; [lia|]. split; [lia|]. split; [exact K5|].
+    assert (Hb2 : node_step k (any_assign k) nid0 (ev ++ ev2) l0 (elems c2)).
+    { eapply node_step_trans; [exact Hn0|exact Hb|]. eapply node_step_ext; [|exact Hns].
+      intros x Hx. unfold key_assign in Hx. unfold any_assign. apply andb_true_iff in Hx. tauto. }
+    assert (Hk2 : forall p, In p l0 -> exists n, In n (elems c2) /\ n_id n = n_id p).
+    { intros p Hp0. destruct (Hk p Hp0) as (n & Hn & En). destruct (kept_insert _ _ _ _ _ _ _ _ _ _ _ Hs Ei n Hn) as (n2 & Hn2 & En2).
+      exists n2. split; auto. congruence. }
+    destruct (IH _ _ _ _ _ _ _ _ l0 nid0 Hs2 Hp2 ltac:(lia) Hb2 Hk2 E) as (K1 & K2 & K3 & K4 & K5 & K5' & (ev3 & K6 & K7)).
+    split; [auto|]. split; [auto|]. split; [lia|]. split; [lia|]. split; [exact K5|]. split; [exact K5'|].
     exists (ev2 ++ ev3). rewrite K6, app_assoc. split; auto. apply Forall_app. auto.
+Qed.
+
+(* ---- runs of removals by key (HashSet::remove(const HashSet&)) ---------------------------------------------- *)
+Lemma rem_fold_facts k o src : forall c ser nid ev c' ev' l0,
+  shape k c -> PInv c o ser nid -> incl (elems c) l0 -> Forall (des_ok l0) ev -> Forall pool_ok ev -> Forall not_free ev ->
+  fold_left (rem_fold k) src (c, ev) = (c', ev') ->
+  shape k c' /\ PInv c' o ser nid /\ incl (elems c') l0 /\ Forall (des_ok l0) ev' /\ Forall pool_ok ev' /\ Forall not_free ev' /\
+  (has_remall k = true -> forall m, In m (elems c) -> In m (elems c') \/ exists e, In e src /\ n_key e = n_key m).
+Proof.
+  induction src as [|e src IH]; intros c ser nid ev c' ev' l0 Hs Hp Hi Hd Hpo Hf E; cbn [fold_left] in E.
+  - injection E as <- <-. auto 10.
+  - unfold rem_fold at 2 in E. destruct (find_pos k (n_key e) c) as [i|] eqn:Efp.
+    2:{ destruct (IH _ _ _ _ _ _ _ Hs Hp Hi Hd Hpo Hf E) as (K1 & K2 & K3 & K4 & K5 & K6 & K7).
+        repeat (split; [assumption|]). intros Hr m Hm. destruct (K7 Hr m Hm) as [G|(e0 & He0 & Ek)]; [auto|right; exists e0; cbn; auto]. }
+    destruct (c_remove_at i c) as [c2 ev2] eqn:Er.
+    assert (Hkey : has_remall k = true -> forall m, In m (elems c) -> In m (elems c2) \/ n_key e = n_key m).
+    { intros Hr m Hm. destruct k; try discriminate Hr. unfold find_pos, shape, elems in *.
+      destruct (c_body c) as [l|t|l hd] eqn:Eb; try (destruct Hs; discriminate). cbn [elems_of] in *.
+      destruct (h_find_some _ _ _ _ Efp) as (x & Hx & Hkx).
+      unfold c_remove_at in Er. unfold elems in Er. rewrite Eb in Er. cbn [elems_of] in Er. rewrite Hx in Er. injection Er as <- _.
+      cbn [c_body elems_of]. destruct (remove_at_split i x l Hx) as (l1 & l2 & E1 & E2 & _). rewrite E2. rewrite E1 in Hm.
+      apply in_app_or in Hm. destruct Hm as [Hm|[<-|Hm]]; [left; apply in_or_app; auto|right; symmetry; exact Hkx|left; apply in_or_app; auto]. }
+    pose proof (PInv_remove _ _ _ _ _ _ _ _ Hs Hp Er) as Hp2.
+    destruct (c_remove_at_effect _ _ _ _ _ Hs Er) as (Hs2 & Hev).
+    assert (G : incl (elems c2) (elems c) /\ (ev2 = [] \/ exists nd, In nd (elems c) /\ ev2 = [EDestroy (n_id nd) (n_slot nd)])).
+    { destruct Hev as [(-> & ->)|(nd & l1 & l2 & E1 & E2 & _ & ->)]; [split; [apply incl_refl|auto]|].
+      rewrite E1, E2. split; [intros x Hx; apply in_app_or in Hx; apply in_or_app; cbn; tauto|].
+      right. exists nd. split; auto. apply in_or_app. cbn. auto. }
+    destruct G as (Hi2 & Hev2).
+    assert (IHa : shape k c' /\ PInv c' o ser nid /\ incl (elems c') l0 /\ Forall (des_ok l0) ev' /\ Forall pool_ok ev' /\ Forall not_free ev' /\
+                  (has_remall k = true -> forall m, In m (elems c2) -> In m (elems c') \/ exists e0, In e0 src /\ n_key e0 = n_key m)).
+    { eapply (IH c2 ser nid (ev ++ ev2)); eauto.
+      + eapply incl_tran; eauto.
+      + apply Forall_app. split; auto. destruct Hev2 as [->|(nd & Hnd & ->)]; repeat constructor. cbn. exists nd. auto.
+      + apply Forall_app. split; auto. destruct Hev2 as [->|(nd & Hnd & ->)]; repeat constructor.
+      + apply Forall_app. split; auto. destruct Hev2 as [->|(nd & Hnd & ->)]; repeat constructor. }
+    destruct IHa as (K1 & K2 & K3 & K4 & K5 & K6 & K7). repeat (split; [assumption|]).
+    intros Hr m Hm. destruct (Hkey Hr m Hm) as [Hm2|Ek]; [|right; exists e; cbn; auto].
+    destruct (K7 Hr m Hm2) as [G|(e0 & He0 & Ek)]; [auto|right; exists e0; cbn; auto].
 Qed.
 
 (* ---- elements only disappear through removals -------------------------------------------------------- *)
@@ -266,18 +362,7 @@ Qed.
 
 Lemma lost_insert k pos key val c ser nid c' ser' nid' ev :
   shape k c -> c_insert k pos key val c ser nid = (c', ser', nid', ev) -> missing (elems c) (elems c') = [].
-Proof.
-  intros Hs E.
-  destruct (c_insert_effect _ _ _ _ _ _ _ _ _ _ _ Hs E)
-    as (_ & _ & [(_ & _ & _ & Hel)|(_ & nd & l1 & l2 & ser1 & ev1 & ev2 & E1 & E2 & _)]).
-  - destruct Hel as [->|(_ & l1 & x & l2 & F1 & F2 & _)]; [apply missing_refl|].
-    rewrite F1, F2. apply missing_none. intros p Hp. apply in_app_or in Hp. destruct Hp as [Hp|[<-|Hp]].
-    + exists p. split; auto. apply in_or_app. auto.
-    + exists (set_val x val). split; [apply in_or_app; cbn; auto|reflexivity].
-    + exists p. split; auto. apply in_or_app. cbn. auto.
-  - rewrite E1, E2. apply missing_none. intros p Hp. exists p. split; auto.
-    apply in_app_or in Hp. apply in_or_app. cbn. tauto.
-Qed.
+Proof. intros Hs E. apply missing_none. eapply kept_insert; eauto. Qed.
 
 Lemma lost_remove k pos c c' ev :
   shape k c -> c_remove_at pos c = (c', ev) -> (length (missing (elems c) (elems c')) <= 1)%nat.
@@ -332,21 +417,14 @@ Record StepFacts (k : kind) (st : state) (o : op) (st' : state) (ev : list event
   sf_cur : cont_op o = true -> s_cur st' = s_cur st;
   sf_other : cont_op o = true -> other st' = other st;
   sf_nodes : cont_op o = true -> node_step k (may_assign k o) (s_nid st) ev (elems (sel st)) (elems (sel st'));
-  sf_lost : cont_op o = true -> removed_ok k o (elems (sel st)) (elems (sel st')) = true }.
-
-Lemma node_step_ext k A B nid ev l l' :
-  (forall x, A x = true -> B x = true) -> node_step k A nid ev l l' -> node_step k B nid ev l l'.
-Proof.
-  intros HAB H n' Hn. destruct (H n' Hn) as [Hl|(n & Hin & (F1 & F2 & F3 & F4))]; [left; exact Hl|].
-  right. exists n. split; auto. unfold survives. repeat split; auto. destruct F4; auto.
-Qed.
+  sf_lost : cont_op o = true -> removed_ok k o (elems (sel st)) (elems (other st)) (elems (sel st')) = true }.
 
 Lemma facts_set_sel k st o c' ser' nid' ev :
   Inv k st -> 
   PInv c' (other st) ser' nid' -> shape k c' -> (s_ser st <= ser')%nat -> (s_nid st <= nid')%nat ->
   Forall (des_ok (elems (sel st))) ev -> (is_pool k = true -> Forall pool_ok ev) -> (o <> ODestroy -> Forall not_free ev) ->
   node_step k (may_assign k o) (s_nid st) ev (elems (sel st)) (elems c') ->
-  removed_ok k o (elems (sel st)) (elems c') = true ->
+  removed_ok k o (elems (sel st)) (elems (other st)) (elems c') = true ->
   StepFacts k st o (set_sel st c' ser' nid') ev.
 Proof.
   intros HI Hp Hs Hser Hnid Hd Hpool Hfree Hns Hlost.
@@ -360,7 +438,23 @@ Lemma facts_noop k st o : Inv k st -> StepFacts k st o st [].
 Proof.
   intros HI. constructor; auto.
   - intros _. apply node_step_same.
-  - intros _. unfold removed_ok. rewrite missing_refl. destruct (removal_budget o); reflexivity.
+  - intros _. unfold removed_ok. rewrite missing_refl. destruct (removal_budget o); [reflexivity|destruct o; reflexivity].
+Qed.
+
+Lemma facts_ins_eff k st o key val c' ser' nid' ev :
+  Inv k st -> (forall x, may_assign k o x = key_assign k key x) -> removal_budget o = Some O ->
+  InsEff k key val (sel st) (s_ser st) (s_nid st) c' ser' nid' ev ->
+  StepFacts k st o (set_sel st c' ser' nid') ev.
+Proof.
+  intros HI HA Hb E. destruct (Inv_sel _ _ HI) as (Hp & Hs & Hso).
+  destruct (PInv_ins_eff _ _ _ _ _ _ _ _ _ _ _ Hp E) as (Hp' & Hser & Hnid).
+  pose proof E as (Hs' & Hev & _).
+  apply facts_set_sel; auto.
+  - eapply Forall_impl; [|exact Hev]. intros e. apply des_ok_ins.
+  - intros Hpool. eapply Forall_impl; [|exact Hev]. intros e. apply ins_ev_pool. exact Hpool.
+  - intros _. eapply Forall_impl; [|exact Hev]. intros e. apply ins_ev_not_free.
+  - eapply node_step_ext; [|eapply node_step_ins_eff; eauto]. intros x Hx. rewrite HA. exact Hx.
+  - unfold removed_ok. rewrite Hb, (missing_none _ _ (kept_ins_eff _ _ _ _ _ _ _ _ _ _ E)). reflexivity.
 Qed.
 
 Lemma facts_insert k st o pos key val c' ser' nid' ev :
@@ -368,15 +462,7 @@ Lemma facts_insert k st o pos key val c' ser' nid' ev :
   c_insert k pos key val (sel st) (s_ser st) (s_nid st) = (c', ser', nid', ev) ->
   StepFacts k st o (set_sel st c' ser' nid') ev.
 Proof.
-  intros HI HA Hb E. destruct (Inv_sel _ _ HI) as (Hp & Hs & Hso).
-  destruct (PInv_insert _ _ _ _ _ _ _ _ _ _ _ _ Hs Hp E) as (Hp' & Hser & Hnid).
-  destruct (c_insert_effect _ _ _ _ _ _ _ _ _ _ _ Hs E) as (Hs' & Hev & _).
-  apply facts_set_sel; auto.
-  - eapply Forall_impl; [|exact Hev]. intros e. apply des_ok_ins.
-  - intros Hpool. eapply Forall_impl; [|exact Hev]. intros e. apply ins_ev_pool. exact Hpool.
-  - intros _. eapply Forall_impl; [|exact Hev]. intros e. apply ins_ev_not_free.
-  - eapply node_step_ext; [|eapply node_step_insert; eauto]. intros x Hx. rewrite HA. exact Hx.
-  - unfold removed_ok. rewrite Hb, (lost_insert _ _ _ _ _ _ _ _ _ _ _ Hs E). reflexivity.
+  intros HI HA Hb E. eapply facts_ins_eff; eauto. eapply c_insert_eff; eauto. apply (Inv_sel _ _ HI).
 Qed.
 
 Lemma c_remove_at_elems pos c c' ev nd :
@@ -420,19 +506,20 @@ Proof.
 Qed.
 
 Lemma c_assign_eq k src c ser nid :
-  c_assign k src c ser nid = let '(c0, ev0) := c_clear c in fold_left (assign_fold k) src (c0, ser, nid, ev0).
+  c_assign k src c ser nid = let '(c0, ev0) := c_clear c in fold_left (ins_fold k None) src (c0, ser, nid, ev0).
 Proof. reflexivity. Qed.
 
 Lemma may_assign_insert k key v x :
   may_assign k (OApp key v) x = key_assign k key x /\ may_assign k (OPre key v) x = key_assign k key x /\
-  forall p, may_assign k (OInsAt p key v) x = key_assign k key x.
+  (forall p, may_assign k (OInsAt p key v) x = key_assign k key x) /\
+  (forall p, may_assign k (OHint p key v) x = key_assign k key x).
 Proof. unfold key_assign. destruct k; cbn; auto. Qed.
 
 Theorem step_facts k cap st o st' ev :
   Inv k st -> step k cap st o = (st', ev) -> StepFacts k st o st' ev.
 Proof.
   intros HI E. destruct (Inv_sel _ _ HI) as (Hp & Hs & Hso).
-  unfold step in E. destruct o as [b|key v|key v|pos key v|pos| | |key| | | | ].
+  unfold step in E. destruct o as [b|key v|key v|pos key v|pos| | |key| | | | |ipos| |hpos key v].
   - (* sel *) injection E as <- <-. destruct HI as [H1 H2 H3].
     constructor; cbn [s_a s_b s_ser s_nid s_cur cont_op]; try discriminate; auto; try constructor; auto.
   - destruct (c_insert k (length (elems (sel st))) key v (sel st) (s_ser st) (s_nid st)) as [[[c' ser'] nid'] ev'] eqn:Ei.
@@ -479,18 +566,17 @@ Proof.
     destruct (c_clear (sel st)) as [c0 ev0] eqn:Ec.
     pose proof (PInv_clear _ _ _ _ _ _ _ Hs Hp Ec) as Hp0.
     destruct (c_clear_effect _ _ _ _ Hs Ec) as (Hs0 & E0 & -> & _).
-    assert (Hb0 : forall n, In n (elems c0) ->
-                            (s_nid st <= n_id n)%nat /\ In (birth k (n_id n) (n_slot n)) (destroy_events (elems (sel st)))).
-    { rewrite E0. intros n []. }
-    destruct (assign_fold_facts k (other st) (elems (other st)) _ _ _ _ _ _ _ _ (s_nid st) Hs0 Hp0 (le_n _) Hb0 Ea)
-      as (K1 & K2 & K3 & K4 & K5 & (ev2 & -> & K7)).
+    assert (Hb0 : node_step k (any_assign k) (s_nid st) (destroy_events (elems (sel st))) [] (elems c0)).
+    { rewrite E0. apply node_step_nil. }
+    destruct (ins_fold_facts k (other st) None (elems (other st)) _ _ _ _ _ _ _ _ [] (s_nid st) Hs0 Hp0 (le_n _) Hb0 ltac:(intros p []) Ea)
+      as (K1 & K2 & K3 & K4 & K5 & _ & (ev2 & -> & K7)).
     apply facts_set_sel; auto.
     + apply Forall_app. split; [apply des_ok_destroy_events|]. eapply Forall_impl; [|exact K7]. intros e. apply des_ok_ins.
     + intros Hpool. apply Forall_app. split; [apply destroy_events_pool|].
       eapply Forall_impl; [|exact K7]. intros e. apply ins_ev_pool. exact Hpool.
     + intros _. apply Forall_app. split; [apply destroy_events_not_free|].
       eapply Forall_impl; [|exact K7]. intros e. apply ins_ev_not_free.
-    + intros n' Hn'. left. apply K5. exact Hn'.
+    + intros n' Hn'. destruct (K5 n' Hn') as [G|(n & [] & _)]. left. exact G.
   - (* destroy *)
     unfold c_destroy in E. injection E as <- <-.
     apply facts_set_sel; auto.
@@ -504,4 +590,34 @@ Proof.
       destruct He as (x & <- & _). exact I.
     + intros Hne. contradiction.
     + rewrite elems_init. apply node_step_nil.
+  - (* insert all the elements of the other container *)
+    destruct (has_insall k) eqn:Hia; [|injection E as <- <-; apply facts_noop; exact HI].
+    destruct (c_insert_all k ipos (elems (other st)) (sel st) (s_ser st) (s_nid st)) as [[[c' ser'] nid'] ev'] eqn:Ea.
+    injection E as <- <-. unfold c_insert_all in Ea.
+    destruct (ins_fold_facts k (other st) _ (elems (other st)) _ _ _ _ _ _ _ _ (elems (sel st)) (s_nid st) Hs Hp (le_n _)
+                (node_step_same _ _ _ _ _) (fun p Hp0 => ex_intro _ p (conj Hp0 eq_refl)) Ea)
+      as (K1 & K2 & K3 & K4 & K5 & K6 & (ev2 & E2 & K7)).
+    cbn [app] in E2. subst ev'.
+    apply facts_set_sel; auto.
+    + eapply Forall_impl; [|exact K7]. intros e. apply des_ok_ins.
+    + intros Hpool. eapply Forall_impl; [|exact K7]. intros e. apply ins_ev_pool. exact Hpool.
+    + intros _. eapply Forall_impl; [|exact K7]. intros e. apply ins_ev_not_free.
+    + eapply node_step_ext; [|exact K5]. intros x Hx. unfold any_assign in Hx.
+      destruct k; try discriminate Hia; try discriminate Hx. reflexivity.
+    + unfold removed_ok. cbn [removal_budget]. rewrite (missing_none _ _ K6). reflexivity.
+  - (* remove every key of the other container *)
+    destruct (has_remall k) eqn:Hra; [|injection E as <- <-; apply facts_noop; exact HI].
+    destruct (c_remove_all k (elems (other st)) (sel st)) as [c' ev'] eqn:Er. injection E as <- <-. unfold c_remove_all in Er.
+    destruct (rem_fold_facts k (other st) _ _ (s_ser st) (s_nid st) [] _ _ (elems (sel st)) Hs Hp (incl_refl _)
+                (Forall_nil _) (Forall_nil _) (Forall_nil _) Er) as (K1 & K2 & K3 & K4 & K5 & K6 & K7).
+    apply facts_set_sel; auto.
+    + intros n' Hn'. right. exists n'. split; [apply K3; exact Hn'|apply survives_refl].
+    + unfold removed_ok. cbn [removal_budget]. apply forallb_forall. intros m Hm. unfold missing in Hm. apply filter_In in Hm.
+      destruct Hm as (Hm & Hno). destruct (K7 Hra m Hm) as [Hin|(e & He & Ek)].
+      * exfalso. apply negb_true_iff in Hno. apply not_true_iff_false in Hno. apply Hno. apply existsb_exists. exists m. split; auto. apply Nat.eqb_refl.
+      * unfold key_in. apply existsb_exists. exists e. split; auto. apply Z.eqb_eq. exact Ek.
+  - (* insertion with a position hint *)
+    destruct (has_hint k) eqn:Hh; [|injection E as <- <-; apply facts_noop; exact HI].
+    destruct (c_insert_hint k hpos key v (sel st) (s_ser st) (s_nid st)) as [[[c' ser'] nid'] ev'] eqn:Ei.
+    injection E as <- <-. eapply facts_ins_eff; eauto; [intros x; apply may_assign_insert|]. eapply c_insert_hint_eff; eauto.
 Qed.
